@@ -5,6 +5,7 @@ UNITS = {
     'LINKFLOW': dict(template='linkflow.rs', rlimit=30),
     'FRAMEENC': dict(template='frameenc.rs', rlimit=60),
     'CONN': dict(template='conn.rs', rlimit=30),
+    'FRAMEDEC': dict(template='framedec.rs', rlimit=30),
 }
 
 COMMON_TRUSTED = [
@@ -40,7 +41,7 @@ PROPS = {
             'in unit SESSION a link is a ghost call log whose echo answer is the contract of LinkRelay::on_incoming_disposition (sender && !settled && rcv-settle-mode second)',
             'DeliveryFut::poll (Pin/poll) and interleaving of dispositions with further sends are not decided']),
     'C06': dict(
-        units=['FRAMEENC'], kani=[], level='proof', title='Frames on the wire',
+        units=['FRAMEENC', 'FRAMEDEC'], kani=[], level='proof', title='Frames on the wire',
         lemmas={'FRAMEENC': ['lemma_expected_properties', 'lemma_cut_points', 'lemma_mids_payload', 'lemma_mids_sizes', 'lemma_flatten_append', 'lemma_payloads_append']},
         assumptions=[
             'precondition fits(): the transfer performative alone (in each of its three forms) is smaller than the frame body; a larger one is outside the contract (usize underflow / no progress)',
@@ -92,7 +93,7 @@ PROPS = {
             'answered-no-later-than / returns-only-after clauses of the property are liveness statements and are not decided',
             'Drop impls racing with the engine are not decided']),
     'C15': dict(
-        units=['SESSION', 'CONN'], kani=[], level='proof', title='Misbehaving peer',
+        units=['SESSION', 'CONN', 'FRAMEDEC'], kani=[], level='proof', title='Misbehaving peer',
         assumptions=[ASYNC, ENGINE,
             'never-blocks-forever and isolation between connections are not decided',
             'handlers of peer input carry no precondition on the peer-controlled arguments']),
